@@ -28,7 +28,10 @@ EXTENDS Integers, Sequences, FiniteSets
 
 CONSTANTS MaxEv,      \* state events the service emits
           MaxReset,   \* system.reset events (each may follow a silent mutation)
-          MaxCustom   \* custom events
+          MaxCustom,  \* custom events
+          MaxFail,    \* re-fetch requests that fail (timeout, error answer)
+          Repaired    \* TRUE: state events received during a re-fetch are kept and handled if the re-fetch fails
+                      \*       (fix in /repo); FALSE: they are dropped - TLC then finds Converges violated, the repaired defect
 
 VARIABLES svc,        \* service state: number of the last state event / silent mutation
           chan,       \* published, not yet handed to the gateway: seq of records
@@ -40,87 +43,108 @@ VARIABLES svc,        \* service state: number of the last state event / silent 
           resets,     \* resets so far
           customs,    \* custom events so far
           gotCustom,  \* custom events forwarded to subscribers
-          owedReset   \* service state at the last reset that found the resource loaded (0: none owed)
+          owedReset,  \* service state at the last reset that found the resource loaded (0: none owed)
+          kept,       \* state events received while the re-fetch is outstanding (resetEvents)
+          fails,      \* failed re-fetches so far
+          silent      \* service state after the last silent mutation that no answer has revealed yet (0: none)
 
-vars == <<svc, chan, st, cache, told, resetting, gets, resets, customs, gotCustom, owedReset>>
+vars == <<svc, chan, st, cache, told, resetting, gets, resets, customs, gotCustom, owedReset, kept, fails, silent>>
 
 Init == svc = 0 /\ chan = <<>> /\ st = "none" /\ cache = 0 /\ told = 0 /\ resetting = FALSE /\ gets = {}
-        /\ resets = 0 /\ customs = 0 /\ gotCustom = 0 /\ owedReset = 0
+        /\ resets = 0 /\ customs = 0 /\ gotCustom = 0 /\ owedReset = 0 /\ kept = <<>> /\ fails = 0 /\ silent = 0
 
 (* ------------------------------ service ------------------------------ *)
 SvcEvent ==      \* a state event: the service state advances and the event is published
     /\ svc < MaxEv
     /\ svc' = svc + 1
     /\ chan' = Append(chan, [t |-> "ev", k |-> svc + 1])
-    /\ UNCHANGED <<st, cache, told, resetting, gets, resets, customs, gotCustom, owedReset>>
+    /\ UNCHANGED <<st, cache, told, resetting, gets, resets, customs, gotCustom, owedReset, kept, fails, silent>>
 
 SvcSilent ==     \* a mutation without event (restart with changed data); only a reset reveals it
     /\ svc < MaxEv /\ resets < MaxReset
     /\ svc' = svc + 1
     /\ chan' = Append(chan, [t |-> "reset", k |-> svc + 1])
-    /\ resets' = resets + 1
-    /\ UNCHANGED <<st, cache, told, resetting, gets, customs, gotCustom, owedReset>>
+    /\ resets' = resets + 1 /\ silent' = svc + 1
+    /\ UNCHANGED <<st, cache, told, resetting, gets, customs, gotCustom, owedReset, kept, fails>>
 
 SvcCustom ==
     /\ customs < MaxCustom
     /\ customs' = customs + 1
     /\ chan' = Append(chan, [t |-> "custom", k |-> customs + 1])
-    /\ UNCHANGED <<svc, st, cache, told, resetting, gets, resets, gotCustom, owedReset>>
+    /\ UNCHANGED <<svc, st, cache, told, resetting, gets, resets, gotCustom, owedReset, kept, fails, silent>>
 
 SvcAnswer(kind) ==   \* the service answers a get request with its current state
     /\ kind \in gets
     /\ gets' = gets \ {kind}
     /\ chan' = Append(chan, [t |-> kind \o "Ans", k |-> svc])
-    /\ UNCHANGED <<svc, st, cache, told, resetting, resets, customs, gotCustom, owedReset>>
+    /\ UNCHANGED <<svc, st, cache, told, resetting, resets, customs, gotCustom, owedReset, kept, fails, silent>>
+
+SvcFail ==           \* the re-fetch request times out / is answered with an error other than not-found
+    /\ "reset" \in gets /\ fails < MaxFail
+    /\ gets' = gets \ {"reset"} /\ fails' = fails + 1
+    /\ chan' = Append(chan, [t |-> "resetFail", k |-> 0])
+    /\ UNCHANGED <<svc, st, cache, told, resetting, resets, customs, gotCustom, owedReset, kept, silent>>
 
 (* ------------------------------ gateway ------------------------------ *)
 Subscribe ==     \* first subscriber: the resource is requested
     /\ st = "none"
     /\ st' = "requested" /\ gets' = gets \cup {"init"}
-    /\ UNCHANGED <<svc, chan, cache, told, resetting, resets, customs, gotCustom, owedReset>>
+    /\ UNCHANGED <<svc, chan, cache, told, resetting, resets, customs, gotCustom, owedReset, kept, fails, silent>>
 
 Deliver ==       \* the gateway's queue hands the next published message to the resource
     /\ chan # <<>>
     /\ chan' = Tail(chan)
     /\ LET m == Head(chan)
        IN CASE m.t = "ev" ->
-                 IF st # "loaded" \/ resetting
-                 THEN UNCHANGED <<st, cache, told, resetting, gets, gotCustom, owedReset>>     \* discarded
+                 IF st # "loaded"
+                 THEN UNCHANGED <<st, cache, told, resetting, gets, gotCustom, owedReset, kept, silent>>     \* discarded: the initial answer contains it
+                 ELSE IF resetting
+                 THEN /\ kept' = IF Repaired THEN Append(kept, m.k) ELSE kept                                \* superseded by the re-fetch answer
+                      /\ UNCHANGED <<st, cache, told, resetting, gets, gotCustom, owedReset, silent>>
                  ELSE /\ cache' = m.k /\ told' = m.k
-                      /\ UNCHANGED <<st, resetting, gets, gotCustom, owedReset>>
+                      /\ UNCHANGED <<st, resetting, gets, gotCustom, owedReset, kept, silent>>
             [] m.t = "custom" ->
                  /\ gotCustom' = IF st = "loaded" THEN gotCustom + 1 ELSE gotCustom
-                 /\ UNCHANGED <<st, cache, told, resetting, gets, owedReset>>
+                 /\ UNCHANGED <<st, cache, told, resetting, gets, owedReset, kept, silent>>
             [] m.t = "initAns" ->
                  /\ st' = "loaded" /\ cache' = m.k /\ told' = m.k
                  /\ owedReset' = IF m.k >= owedReset THEN 0 ELSE owedReset
-                 /\ UNCHANGED <<resetting, gets, gotCustom>>
+                 /\ silent' = IF m.k >= silent THEN 0 ELSE silent
+                 /\ UNCHANGED <<resetting, gets, gotCustom, kept>>
             [] m.t = "reset" ->      \* system.reset matching the resource: re-fetched also while the initial get is outstanding
                  IF st \in {"requested", "loaded"} /\ ~resetting
                  THEN /\ resetting' = TRUE /\ gets' = gets \cup {"reset"} /\ owedReset' = m.k
-                      /\ UNCHANGED <<st, cache, told, gotCustom>>
+                      /\ UNCHANGED <<st, cache, told, gotCustom, kept, silent>>
                  ELSE /\ owedReset' = IF st \in {"requested", "loaded"} THEN m.k ELSE owedReset
-                      /\ UNCHANGED <<st, cache, told, resetting, gets, gotCustom>>
+                      /\ UNCHANGED <<st, cache, told, resetting, gets, gotCustom, kept, silent>>
+            [] m.t = "resetFail" ->  \* the re-fetch failed: the kept events are handled now, nothing was revealed
+                 /\ resetting' = FALSE /\ kept' = <<>>
+                 /\ IF st = "loaded" /\ kept # <<>> THEN cache' = kept[Len(kept)] /\ told' = kept[Len(kept)] ELSE UNCHANGED <<cache, told>>
+                 /\ owedReset' = 0
+                 /\ UNCHANGED <<st, gets, gotCustom, silent>>
             [] OTHER ->              \* "resetAns": the diff is turned into events for the subscribers;
                                      \* ignored if the initial answer has not arrived yet (it was published later and is fresher)
-                 /\ resetting' = FALSE
+                 /\ resetting' = FALSE /\ kept' = <<>>
                  /\ IF st = "loaded" THEN cache' = m.k /\ told' = m.k ELSE UNCHANGED <<cache, told>>
                  /\ owedReset' = IF m.k >= owedReset THEN 0 ELSE owedReset
+                 /\ silent' = IF st = "loaded" /\ m.k >= silent THEN 0 ELSE silent
                  /\ UNCHANGED <<st, gets, gotCustom>>
-    /\ UNCHANGED <<svc, resets, customs>>
+    /\ UNCHANGED <<svc, resets, customs, fails>>
 
-Next == SvcEvent \/ SvcSilent \/ SvcCustom \/ (\E k \in {"init", "reset"} : SvcAnswer(k)) \/ Subscribe \/ Deliver
+Next == SvcEvent \/ SvcSilent \/ SvcCustom \/ (\E k \in {"init", "reset"} : SvcAnswer(k)) \/ SvcFail \/ Subscribe \/ Deliver
 
 Spec == Init /\ [][Next]_vars /\ WF_vars(Deliver) /\ WF_vars(\E k \in {"init", "reset"} : SvcAnswer(k))
 
 -----------------------------------------------------------------------------
 (* an event is applied only when the cache reflects the state just before it *)
-NoGap == [][(chan # <<>> /\ chan' = Tail(chan) /\ Head(chan).t = "ev" /\ cache' # cache) => cache = Head(chan).k - 1]_vars
+(* (while a silent mutation is unrevealed the cache is knowingly behind, and events are deltas on whatever it holds) *)
+NoGap == [][(chan # <<>> /\ chan' = Tail(chan) /\ Head(chan).t = "ev" /\ cache' # cache /\ silent = 0) => cache = Head(chan).k - 1]_vars
 Told == st = "loaded" => told = cache
-OneRefetch == /\ Cardinality({i \in DOMAIN chan : chan[i].t = "resetAns"}) + (IF "reset" \in gets THEN 1 ELSE 0) = (IF resetting THEN 1 ELSE 0)
+OneRefetch == /\ Cardinality({i \in DOMAIN chan : chan[i].t \in {"resetAns", "resetFail"}}) + (IF "reset" \in gets THEN 1 ELSE 0) = (IF resetting THEN 1 ELSE 0)
               /\ Cardinality({i \in DOMAIN chan : chan[i].t = "initAns"}) + (IF "init" \in gets THEN 1 ELSE 0) = (IF st = "requested" THEN 1 ELSE 0)
 Quiet == chan = <<>> /\ gets = {}
 (* silent mutations are only revealed by their reset, so convergence is owed once every reset has been handled *)
-Converges == (Quiet /\ st = "loaded" /\ ~resetting) => cache = svc
+(* a silent mutation whose re-fetch failed stays unrevealed until the next reset: convergence is owed for what was announced *)
+Converges == (Quiet /\ st = "loaded" /\ ~resetting /\ silent = 0) => cache = svc
 Refetched == (owedReset > 0) ~> (owedReset = 0)
 =============================================================================
